@@ -29,9 +29,9 @@ func init() {
 		return msg != "", msg
 	}
 	Replayers["C19/move"] = func(data json.RawMessage) (bool, string) {
-		var d struct{ FEN, Move string }
+		var d struct{ FEN, Move, Parent, Via string }
 		_ = json.Unmarshal(data, &d)
-		msg := engineMove(context.Background(), d.FEN, d.Move, nil)
+		msg := engineMove(context.Background(), d.FEN, d.Move, nil, d.Parent, d.Via)
 		return msg != "", msg
 	}
 }
@@ -131,17 +131,28 @@ func parseTotal(s string) (msg string) {
 
 // engineMove checks one move string on an engine set up with the FEN: accepted iff legal, state
 // unchanged on rejection, standard successor on acceptance.
-func engineMove(ctx context.Context, f, s string, legal map[string]ref.Move) (msg string) {
+func engineMove(ctx context.Context, f, s string, legal map[string]ref.Move, history ...string) (msg string) {
 	defer func() {
 		if r := recover(); r != nil {
 			msg = fmt.Sprintf("panic: %v", r)
 		}
 	}()
 	e := newPlainEngine(ctx)
-	if err := e.Reset(ctx, f); err != nil {
+	start := f
+	if len(history) == 2 && history[0] != "" {
+		start = history[0]
+	}
+	if err := e.Reset(ctx, start); err != nil {
 		return "Reset failed: " + err.Error()
 	}
-	g, _ := ref.GameFromFEN(f)
+	g, _ := ref.GameFromFEN(start)
+	if start != f {
+		m0, ok := g.Cur().FindMove(history[1])
+		if !ok || e.Move(ctx, history[1]) != nil {
+			return "the move leading to the position is rejected"
+		}
+		g.Push(m0)
+	}
 	if legal == nil {
 		legal = map[string]ref.Move{}
 		for _, m := range g.Cur().Legal() {
@@ -179,7 +190,7 @@ func checkC19(c *harness.Check) {
 	// U+0171='q'; same low 16 bits: U+10031='1', U+10061='a')
 	sym := []string{"a", "h", "e", "1", "8", "9", "0", "q", "k", "p", "x", " ", "é", "٣", "\x00", "A", "Q", "-", "ı", "ĸ", "š", "Ũ", "ű", "\U00010031", "\U00010061"}
 	maxLen := 5
-	c.Rule = fmt.Sprintf("(a) every string of <= %d symbols over %q into ParseMove and ParseSquareStr; (b) every FEN whose board field is a word of <= %d tokens over {K,k,p,1,3,8,9,0,/,arabic-3,x, 8/8/8/8, 8/8/8/8/8/8/8/7, 9x28 (run-length macros: the square cursor is a small unsigned integer)} with canonical other fields, and valid boards crossed with field alphabets for side/castling/e.p./clocks; (c) every single (thorough: and double) edit - replace, insert, delete over a 30-symbol alphabet - of %d valid FENs; (d) for every BFS node (depth<=1) of the seed corpus all 64x64x(none,q,r,b,n,k,p) move strings + case/length variants through Engine.Move: accepted iff reference-legal, successor FEN standard, state snapshot unchanged on rejection. Oracle for decoding: no panic; error or non-nil self-consistent position whose re-encoding decodes to the same position. distinct_nontrivial = accepted inputs", maxLen, sym, c.Pick(5, 6), 10)
+	c.Rule = fmt.Sprintf("(a) every string of <= %d symbols over %q into ParseMove and ParseSquareStr; (b) every FEN whose board field is a word of <= %d tokens over {K,k,p,1,3,8,9,0,/,arabic-3,x, 8/8/8/8, 8/8/8/8/8/8/8/7, 9x28 (run-length macros: the square cursor is a small unsigned integer)} with canonical other fields, and valid boards crossed with field alphabets for side/castling/e.p./clocks; (c) every single (thorough: and double) edit - replace, insert, delete over a 30-symbol alphabet - of %d valid FENs; (d) for every BFS node (depth<=1) of the seed corpus all 64x64x(none,q,r,b,n,k,p) move strings + case/length variants through Engine.Move: accepted iff reference-legal, successor FEN standard, state snapshot unchanged on rejection (positions one move from a seed are set up by PLAYING that move, so the engine has a history to lose). Oracle for decoding: no panic; error or non-nil self-consistent position whose re-encoding decodes to the same position. distinct_nontrivial = accepted inputs", maxLen, sym, c.Pick(5, 6), 10)
 
 	// (a) short strings into the two parsers
 	var cc classCap
@@ -303,6 +314,7 @@ func checkC19(c *harness.Check) {
 
 	// (d) move strings through the engine
 	var nodes []*Node
+	via := map[*Node][2]string{} // a node reached by a move: (parent FEN, move) - the engine then has a history
 	{
 		seen := map[string]bool{}
 		for _, s := range corpus.Seeds {
@@ -316,7 +328,9 @@ func checkC19(c *harness.Check) {
 					q := r.Ref.Make(m)
 					if !seen[q.FEN(0, 1)] {
 						seen[q.FEN(0, 1)] = true
-						nodes = append(nodes, refNode(q))
+						n := refNode(q)
+						via[n] = [2]string{r.Ref.FEN(3, 9), m.String()}
+						nodes = append(nodes, n)
 					}
 				}
 			}
@@ -335,11 +349,35 @@ func checkC19(c *harness.Check) {
 			legal[m.String()] = m
 		}
 		e := newPlainEngine(ctx)
-		if err := e.Reset(ctx, f); err != nil {
+		parent, hasHistory := via[nodes[i]]
+		setup := func() error {
+			if !hasHistory {
+				return e.Reset(ctx, f)
+			}
+			if err := e.Reset(ctx, parent[0]); err != nil {
+				return err
+			}
+			return e.Move(ctx, parent[1])
+		}
+		if hasHistory {
+			g0, _ := ref.GameFromFEN(parent[0])
+			if m0, ok := g0.Cur().FindMove(parent[1]); ok {
+				g0.Push(m0)
+				f = g0.FEN()
+			}
+		}
+		if err := setup(); err != nil {
 			c.Violation("C19/reset "+f, "Reset rejected a valid FEN: "+err.Error(), "C19/fen", f)
 			return
 		}
 		before := bridge.Snapshot(e.Board(), true)
+		data := func(s string) map[string]string {
+			d := map[string]string{"FEN": f, "Move": s}
+			if hasHistory {
+				d["Parent"], d["Via"] = parent[0], parent[1]
+			}
+			return d
+		}
 		c.States.Add(1)
 		try := func(s string) {
 			c.Evaluations.Add(1)
@@ -370,12 +408,12 @@ func checkC19(c *harness.Check) {
 			if err == nil {
 				_ = e.TakeBack(ctx)
 				if bridge.Snapshot(e.Board(), true) != before {
-					_ = e.Reset(ctx, f)
+					_ = setup()
 				}
 			}
 			if bad != "" {
-				c.Violation(cc.sig("C19/move", f+" "+s), fmt.Sprintf("move string %q at %s: %s", s, f, bad), "C19/move", map[string]string{"FEN": f, "Move": s})
-				_ = e.Reset(ctx, f)
+				c.Violation(cc.sig("C19/move", f+" "+s), fmt.Sprintf("move string %q at %s: %s", s, f, bad), "C19/move", data(s))
+				_ = setup()
 			}
 		}
 		for _, f1 := range files {
